@@ -23,9 +23,7 @@
 //   are compared as string literals by Verus' evaluator, the widths as numbers.
 // =====================================================================================================
 
-/// a register as the tables name it: literal name + width in bits
-pub struct RegName { pub name: &'static str, pub bits: usize }
-
+// (`RegName` = literal name + width in bits: units/C20/tables.rs)
 pub open spec fn reg(name: &'static str, bits: usize) -> RegName { RegName { name, bits } }
 
 pub enum RaTwin { Register(RegName), Stack(usize) }
@@ -44,7 +42,7 @@ pub struct CcTwin {
 pub open spec fn rs_ins(s: Seq<RegName>, x: RegName) -> Seq<RegName> { s.push(x) }
 
 //@ itemx impl CallingConvention :: fn new name=vf_twin_anchor_new
-//@ rewrite 1 `pub fn new(typ: CallingConventionType) -> CallingConvention {` => `fn new() {} pub open spec fn cc_twin(typ: CallingConventionType) -> CcTwin {` ## R-fn-twin: ghost twin of CallingConvention::new: the same body read as a mathematical term (an empty executable fn in front keeps the item a `fn` for the extractor); spec-only, no executable token involved
+//@ rewrite 1 `pub fn new(typ: CallingConventionType) -> CallingConvention {` => `fn new() {} pub open spec fn cc_twin_raw(typ: CallingConventionType) -> CcTwin {` ## R-fn-twin: ghost twin of CallingConvention::new: the same body read as a mathematical term (an empty executable fn in front keeps the item a `fn` for the extractor); spec-only, no executable token involved
 //@ rewrite * `il::scalar(` => `reg(` ## R-fn-twin: a scalar constructor call becomes the (literal name, width) pair it is applied to
 //@ rewrite * `vec![` => `seq![` ## R-fn-twin: vector literal -> sequence literal
 //@ rewrite 1 `Vec::new()` => `Seq::<RegName>::empty()` ## R-fn-twin: empty vector -> empty sequence
@@ -55,3 +53,74 @@ pub open spec fn rs_ins(s: Seq<RegName>, x: RegName) -> Seq<RegName> { s.push(x)
 //@ rewrite * `ReturnAddressType::` => `RaTwin::` ## R-fn-twin: the twin of the return-address descriptor
 //@ rewrite * `CallingConvention {` => `CcTwin {` ## R-fn-twin: the twin of the record
 //@ end
+
+/// the twin, hidden from the solver except where it is revealed (in `new`, to prove that the executable function
+/// returns the lifting of the twin); Verus' evaluator sees through it
+#[verifier::opaque]
+pub open spec fn cc_twin(typ: CallingConventionType) -> CcTwin { cc_twin_raw(typ) }
+
+// =====================================================================================================
+// (2) LIFTING the twin to il::Scalar level
+// =====================================================================================================
+
+/// the il::Scalar a (name, width) pair stands for: what `il::scalar(name, bits)` returns
+pub open spec fn scalar_of(r: RegName) -> Scalar { named_scalar(r.name@, r.bits) }
+
+pub open spec fn lift_seq(s: Seq<RegName>) -> Seq<Scalar> { Seq::new(s.len(), |i: int| scalar_of(s[i])) }
+
+/// the SET of scalars inserted, given the LIST of inserted (name, width) pairs
+pub open spec fn lift_set(s: Seq<RegName>) -> Set<Scalar>
+    decreases s.len(),
+{
+    if s.len() == 0 { Set::empty() } else { lift_set(s.drop_last()).insert(scalar_of(s.last())) }
+}
+
+pub open spec fn ra_lift(t: RaTwin) -> ReturnAddressType {
+    match t { RaTwin::Register(r) => ReturnAddressType::Register(scalar_of(r)), RaTwin::Stack(o) => ReturnAddressType::Stack(o) }
+}
+
+/// the executable record `c` is the lifting of the twin `t`
+pub open spec fn is_lift(c: CallingConvention, t: CcTwin) -> bool {
+    &&& c.argument_registers@ =~= lift_seq(t.argument_registers)
+    &&& c.preserved_registers@ == lift_set(t.preserved_registers)
+    &&& c.trashed_registers@ == lift_set(t.trashed_registers)
+    &&& c.stack_argument_offset == t.stack_argument_offset
+    &&& c.stack_argument_length == t.stack_argument_length
+    &&& c.return_address_type == ra_lift(t.return_address_type)
+    &&& c.return_register == scalar_of(t.return_register)
+}
+
+pub broadcast proof fn lemma_lift_ins(s: Seq<RegName>, x: RegName)
+    ensures #[trigger] lift_set(rs_ins(s, x)) == lift_set(s).insert(scalar_of(x)),
+{
+    assert(rs_ins(s, x).drop_last() =~= s);
+    assert(rs_ins(s, x).last() == x);
+}
+
+pub broadcast proof fn lemma_lift_empty()
+    ensures #[trigger] lift_set(Seq::<RegName>::empty()) == Set::<Scalar>::empty(),
+{
+}
+
+/// membership in the lifted set = being the lifting of one of the listed pairs
+pub proof fn lemma_lift_set_contains(s: Seq<RegName>, x: Scalar)
+    ensures lift_set(s).contains(x) <==> exists|i: int| 0 <= i < s.len() && x == scalar_of(#[trigger] s[i]),
+    decreases s.len(),
+{
+    if s.len() > 0 {
+        lemma_lift_set_contains(s.drop_last(), x);
+        if lift_set(s).contains(x) {
+            if x == scalar_of(s.last()) {
+                assert(x == scalar_of(s[s.len() - 1]));
+            } else {
+                let i = choose|i: int| 0 <= i < s.drop_last().len() && x == scalar_of(#[trigger] s.drop_last()[i]);
+                assert(x == scalar_of(s[i]));
+            }
+        }
+        if exists|i: int| 0 <= i < s.len() && x == scalar_of(#[trigger] s[i]) {
+            let i = choose|i: int| 0 <= i < s.len() && x == scalar_of(#[trigger] s[i]);
+            if i < s.len() - 1 { assert(x == scalar_of(s.drop_last()[i])); }
+        }
+    }
+}
+
